@@ -130,6 +130,7 @@ func genDispatch(c *ctx) string {
 	b.WriteString("def argsSortedOnce : Bool := " + argsSortedOnceForm(c) + "\n")
 	b.WriteString("def condByIdentity : Bool := " + condByIdentityForm(c) + "\n")
 	b.WriteString("def anonAmongOthers : Bool := " + anonAmongOthersForm(c) + "\n")
+	b.WriteString("def metaArgsUnchecked : Bool := " + metaArgsFact(c) + "\n")
 	b.WriteString("def reflectOptionalRefused : Bool := " + reflectOptionalForm(c) + "\n")
 	b.WriteString("def inputDefaultsRaw : Bool := " + inputValidateForm(c) + "\n")
 	b.WriteString("def listNotCoerced : Bool := " + lnc + "\n")
@@ -301,7 +302,7 @@ func condByIdentityForm(c *ctx) string {
 		strings.Contains(f, "if sel.Fragment.Condition == nil || sel.Fragment.Condition == t { ea = root.resolveSels(obj, vars, sel.Fragment.Sels, t, result, depth)"):
 		return "true"
 	case ot != nil && ft != nil && im != nil && strings.Contains(r, walkArm) &&
-		strings.Contains(fld, `case "__typename": if ot := root.objectType(obj, t); ot != nil { result[field.key()] = ot.Name() } else { result[field.key()] = t.Name() } return nil`) &&
+		strings.Contains(fld, `if ot := root.objectType(obj, t); ot != nil { result[field.key()] = ot.Name() } else { result[field.key()] = t.Name() } return nil case "__type":`) && metaArgsForm(c) != "" &&
 		strings.Contains(i, "if ft := root.fragmentType(obj, sel.Condition, t); ft != nil { ea = root.resolveSels(obj, vars, sel.Sels, ft, result, depth) }") &&
 		strings.Contains(f, "if ft := root.fragmentType(obj, sel.Fragment.Condition, t); ft != nil { ea = root.resolveSels(obj, vars, sel.Fragment.Sels, ft, result, depth)") &&
 		norm(ot.Body) == "{ switch tt := t.(type) { case *Object: return tt case *Interface: if ot, _ := root.getReflectType(reflect.TypeOf(obj)).(*Object); ot != nil && ot.implements(tt) { return ot } case *Union: if ot, _ := root.getReflectType(reflect.TypeOf(obj)).(*Object); ot != nil { for _, m := range tt.Members { if m == ot { return ot } } } } return nil }" &&
@@ -329,6 +330,31 @@ func anonAmongOthersForm(c *ctx) string {
 		return "false"
 	}
 	return unknown("Executable.Validate body", c.pos(fd))
+}
+
+// metaArgsForm (D100): is `__typename` answered without looking at its arguments, or is an argument given to it
+// reported as undeclared (it declares none) before anything is written to the result?  "" for any other shape.
+func metaArgsForm(c *ctx) string {
+	fd := c.funcs["Root.resolveField"]
+	if fd == nil {
+		return ""
+	}
+	t := regexp.MustCompile(`(?m)//.*$`).ReplaceAllString(c.src(fd.Body), "")
+	t = regexp.MustCompile(`\s+`).ReplaceAllString(t, " ")
+	switch {
+	case strings.Contains(t, `case "__typename": if 0 < len(field.Args) { ea = append(ea, valError(field.Args[0].line, field.Args[0].col, "%s is not an argument to %s", field.Args[0].Arg, field.Name)) Errors(ea).in(field.key()) return } if ot := root.objectType(obj, t); ot != nil {`):
+		return "false"
+	case strings.Contains(t, `case "__typename": if ot := root.objectType(obj, t); ot != nil {`) || strings.Contains(t, `case "__typename": result[field.key()] = t.Name() return nil`):
+		return "true"
+	}
+	return ""
+}
+
+func metaArgsFact(c *ctx) string {
+	if f := metaArgsForm(c); f != "" {
+		return f
+	}
+	return unknown("__typename arm of resolveField", "resolve.go")
 }
 
 // reflectOptionalForm (D94): is an optional argument that is left out (or null) refused by checkReflectArgs
